@@ -361,15 +361,26 @@ func timeoutInvalid(proto, th string) bool {
 func c07GzipTruncated(r *h.Run, rng *h.Rng) {
 	for _, proto := range []string{"connect", "grpc", "grpcweb"} {
 		for _, kind := range []string{"unary", "client", "server", "bidi"} {
-			for _, cut := range []int{0, 1, 4, 7, 8} {
+			// cut -1: the complete stream in a frame flagged compressed, but the request names NO
+			// encoding (or identity) — it merely ACCEPTS gzip for the response
+			for _, cut := range []int{0, 1, 4, 7, 8, -1, -2} {
 				payload := genPayload(rng, 20+rng.Intn(200))
 				var zb bytes.Buffer
 				zw := gzip.NewWriter(&zb)
 				_, _ = zw.Write(payload)
 				_ = zw.Close()
+				undeclared := cut < 0
+				declared := "gzip"
+				if undeclared {
+					declared = map[int]string{-1: "", -2: "identity"}[cut]
+					cut = 0
+				}
 				wire := zb.Bytes()[:zb.Len()-cut]
 				cfg := envCfg{Proto: proto}
 				unary := kind == "unary"
+				if undeclared && unary && proto == "connect" {
+					continue // (no envelope flag there: the body would simply be an undecodable message)
+				}
 				body := h.Frame(1, wire)
 				if unary && proto == "connect" {
 					body = wire
@@ -422,10 +433,15 @@ func c07GzipTruncated(r *h.Run, rng *h.Rng) {
 				req.ProtoMajor, req.ProtoMinor = 2, 0
 				req.Body = h.NewChunkBody([][]byte{body}, h.FinCleanEOF)
 				req.Header.Set("Content-Type", cfg.contentType(unary))
-				req.Header.Set(cfg.encodingHeader(unary), "gzip")
+				if declared != "" {
+					req.Header.Set(cfg.encodingHeader(unary), declared)
+				}
+				if undeclared {
+					req.Header.Set(map[bool]string{true: "Connect-Accept-Encoding", false: "Grpc-Accept-Encoding"}[proto == "connect"], "gzip")
+				}
 				rec := httptest.NewRecorder()
 				timedOut, p := withWatchdog(5*time.Second, func() { handler.ServeHTTP(rec, req) })
-				in := map[string]any{"proto": proto, "kind": kind, "request_encoding": "gzip", "gzip_stream_bytes_removed_from_end": cut, "message_bytes": len(payload), "body_hex": h.Hex(body)}
+				in := map[string]any{"proto": proto, "kind": kind, "request_encoding": declared, "accepts_gzip_for_the_response": undeclared, "frame_flagged_compressed": true, "gzip_stream_bytes_removed_from_end": cut, "message_bytes": len(payload), "body_hex": h.Hex(body)}
 				r.Eval("gzip_truncated", fmt.Sprint(proto, kind, cut))
 				if timedOut || p != nil {
 					r.Fail(h.Failure{Key: "serve/hang-or-panic", Family: "gzip_truncated", What: fmt.Sprint("hang or panic: ", p, " timeout=", timedOut), Input: in})
@@ -437,6 +453,12 @@ func c07GzipTruncated(r *h.Run, rng *h.Rng) {
 				}
 				code, _ := peerError(proto, peerKind, rec)
 				r.Sample("gzip_truncated", map[string]any{"in": in, "peer_code": code, "user_calls": calls, "delivered": len(got)})
+				if undeclared {
+					if len(got) != 0 || code != "invalid_argument" {
+						r.Fail(h.Failure{Key: "serve/compressed-without-encoding-accepted", Family: "gzip_truncated", What: "a frame flagged compressed in a request that names no encoding was inflated and served (the request merely accepts gzip responses)", Input: in, Actual: fmt.Sprint(code, " delivered=", len(got))})
+					}
+					continue
+				}
 				if cut == 0 {
 					if len(got) != 1 || !bytes.Equal(got[0], payload) || code != "" {
 						r.Fail(h.Failure{Key: "serve/valid-compressed-refused", Family: "gzip_truncated", What: "a message compressed with a complete gzip stream was not delivered intact", Input: in, Actual: fmt.Sprint(code, " delivered=", len(got))})
